@@ -2,7 +2,7 @@
    Pinned statements only.  Model: Model/Fullname.v, Model/XmlSer.v, Model/NsTools.v. *)
 From Coq Require Import List NArith.
 From XotV Require Import Model.Base Model.Zipper Model.Access Model.Store Model.Manip Model.Interning Model.Fullname Model.Scope
-                         Model.XmlSer Model.NsTools Model.Builder Proofs.FullnameProofs Proofs.NsProofs.
+                         Model.XmlSer Model.NsTools Model.Builder Proofs.FullnameProofs Proofs.NsProofs Proofs.DedupProofs Proofs.RepairProofs.
 Import ListNotations.
 Open Scope N_scope.
 
@@ -80,3 +80,39 @@ Theorem C10_bound_namespace_is_not_missing :
     element_prefix ep nn s ns <> PMissing /\ attribute_prefix ep nn s ns <> PMissing.
 Proof. exact bound_namespace_not_missing. Qed.
 Print Assumptions C10_bound_namespace_is_not_missing.
+
+
+(* ---------- "missing prefixes can be repaired": the repair is complete ----------
+   The scan create_missing_prefixes makes (a FullnameSerializer walked over the subtree, collecting the namespaces of names
+   without a usable prefix) is, in structural form, [mf] over the subtree (first theorem).  The second theorem runs it again on
+   the repaired element: [k] are the element's children before the call, [L] the bindings the call generates, [ins_all slots L k]
+   the children afterwards (each binding becomes a namespace node after the element's last namespace node, C10_repair_effect and
+   Model/Manip.v map_insert).  If [L] binds every namespace the scan found ([incl]: C10_generated_prefixes_are_new gives
+   map snd L = the missing namespaces), under prefixes that are pairwise different, not the empty prefix, not `xml`, and declared
+   by no element of the subtree ([decls_ok]: that is what C10_generated_prefixes_are_new's "not in used" says), then the scan of
+   the repaired element finds NOTHING: every element and attribute name anywhere below has a prefix the serialiser can write.
+   Proved by running the two scans side by side along the whole subtree: Proofs/RepairProofs.v. *)
+Theorem C10_scan_in_structural_form :
+  forall nm z, missing_namespaces nm z = mf nm (base_stack nm) [] (FCons (z_slot z) (z_val z) (z_kids z) FNil).
+Proof. exact missing_namespaces_structural. Qed.
+Print Assumptions C10_scan_in_structural_form.
+
+Theorem C10_repair_is_complete :
+  forall nm L, NoDup (map fst L) -> ~ In (ns_empty_prefix nm) (map fst L) ->
+  forall e name k slots,
+    length slots = length L ->
+    incl (mf nm (base_stack nm) [] (FCons e (VElement name) k FNil)) (map snd L) ->
+    ~ In (ns_xml_prefix nm) (map fst L) -> decls_ok L (FCons e (VElement name) k FNil) ->
+    mf nm (base_stack nm) [] (FCons e (VElement name) (ins_all slots L k) FNil) = [].
+Proof. exact repair_complete. Qed.
+Print Assumptions C10_repair_is_complete.
+
+(* non-vacuity: an element in namespace 7 with an attribute in namespace 8 and a child in namespace 9, nothing declared: the
+   scan finds 7, 8, 9; with three generated bindings it finds nothing *)
+Example C10_repair_example :
+  let nm := {| ns_empty_prefix := 0; ns_xml_prefix := 1; ns_no_ns := 0; ns_xml_ns := 1; ns_of_name := fun n => n |} in
+  let k := FCons 11 (VAttribute 8 []) FNil (FCons 12 (VElement 9) FNil FNil) in
+  let L := [(20, 7); (21, 8); (22, 9)] in
+  mf nm (base_stack nm) [] (FCons 10 (VElement 7) k FNil) = [7; 8; 9]
+  /\ mf nm (base_stack nm) [] (FCons 10 (VElement 7) (ins_all [30; 31; 32] L k) FNil) = [].
+Proof. vm_compute. split; reflexivity. Qed.
